@@ -8,6 +8,7 @@ package harness
 
 import (
 	"fmt"
+	"math/big"
 	"reflect"
 	"strings"
 	"testing"
@@ -377,6 +378,8 @@ func runC15(c textCase) Verdict {
 var markupFragments = []string{"[", "]", "[/", "/]", "[/]", "=", "\"", "\\", "\\[", "\\]", ":", ": ", " ", "  ", "\t", "a", "b", "nomarkup", "[nomarkup]", "[/nomarkup]",
 	"select", "plural", "ordinal", "value=", "value=1", "one=\"x\"", "other=\"%\"", "1", "0", ".", "1.5", "true", "false", "trimwhitespace=", "trimwhitespace=true",
 	"one=\"%\\\\\"", "\\\\\"", "\\%", "[plural value=1 one=\"", "[select value=x x=\"", "\" /]", "\"]", "[nomarkup]\xff[/nomarkup]", "\xe9", "\xf0\x9f",
+	"value=9223372036854775807", "value=9223372036854775808", "value=-9223372036854775808", "value=-9223372036854775809", "value=18446744073709551616", "value=4294967296", "value=2147483648",
+	"[ordinal value=", "[plural value=", "9223372036854775808", "two=\"b\" few=\"c\" many=\"d\"",
 	"[a]", "[/a]", "[a/]", "[b]", "[/b]", "[b /]", "é", "日本", "😀", "\u00a0", "\u3000", "character", "[character name=\"x\"]", "name", "x", "%", "\xff", "\xc3", "\x00", "٣", "[a=", "[a x=", "_"}
 
 func genMarkupSoup(t *rapid.T) string {
@@ -389,7 +392,28 @@ func genMarkupSoup(t *rapid.T) string {
 }
 
 func genC15(t *rapid.T) textCase {
-	switch rapid.IntRange(0, 14).Draw(t, "kind") {
+	switch rapid.IntRange(0, 15).Draw(t, "kind") {
+	case 15:
+		// replacement markers whose value is a number at the edge of an integer type, or not a number of any integer type
+		value := genBoundaryDecimal(t)
+		if rapid.IntRange(0, 3).Draw(t, "exact") != 0 {
+			v := new(big.Int).Lsh(big.NewInt(1), rapid.SampledFrom([]uint{7, 8, 15, 16, 31, 32, 53, 63, 64}).Draw(t, "exp"))
+			v.Add(v, big.NewInt(int64(rapid.IntRange(-2, 2).Draw(t, "delta"))))
+			if rapid.Bool().Draw(t, "negative") {
+				v.Neg(v)
+			}
+			value = v.String()
+		}
+		name := rapid.SampledFrom([]string{"ordinal", "ordinal", "plural", "plural", "select", "a"}).Draw(t, "marker")
+		cases := `one="1st %" two="2nd" few="3rd" many="many" other="%th" zero="none"`
+		if name == "select" {
+			cases = fmt.Sprintf(`%s="picked" other="%%"`, strings.TrimLeft(value, "-"))
+		}
+		pre := rapid.SampledFrom([]string{"", "x ", "Bob: ", "[b]"}).Draw(t, "pre")
+		if rapid.Bool().Draw(t, "openform") {
+			return textCase{Input: fmt.Sprintf("%s[%s value=%s %s]inner[/%s] tail", pre, name, value, cases, name), Kind: "boundary-value"}
+		}
+		return textCase{Input: fmt.Sprintf("%s[%s value=%s %s /] tail", pre, name, value, cases), Kind: "boundary-value"}
 	case 14:
 		// the bytes of one character spread over several raw sections, with markers around and between them
 		ch := rapid.SampledFrom([]string{"€", "é", "😀", "日", " "}).Draw(t, "char")
